@@ -28,6 +28,10 @@ path to here"):
     with                                      -> body walked in place
     return / raise / continue / break         -> do not fall through
     nested def / lambda / class               -> not walked; a site or Y inside one is REFUSED (reported as an error)
+`mode="none_after"` turns the declaration around (a MAY-analysis): the obligation at a site is that NO path reaches it after
+a statement containing Y may have been executed ("every pull from the frame buffer happens before the stream lookup that
+can abort the handler"); joins are unions, a loop body is walked again from the joined fact, an exception handler is
+entered with "Y may have run" when Y occurs in the try body.
 `exempt={"writes:x": ["<test>"]}`: a site under the true branch of an `if <test>:` is not an obligation (it is listed among
 the assumptions of the evidence with the declaration's exempt_note).
 `expect` pins the number of (non-exempt) sites found per kind: a site that disappears (renamed attribute, moved into a helper) makes
@@ -78,7 +82,8 @@ def _header_exprs(st):
 
 
 class Walk:
-    def __init__(self, after, sites, exempt=None):
+    def __init__(self, after, sites, exempt=None, may=False):
+        self.may = may  # False: must-analysis ("Y completed on every path"), True: may-analysis ("Y may have been executed")
         self.after = after  # (kind, name)
         self.sites = sites  # list of (kind, name)
         self.found = []  # (site spec, lineno, A at the site)
@@ -135,11 +140,23 @@ class Walk:
             self.tests.pop()
             a2, f2 = self.block(st.orelse, a0) if st.orelse else (a0, True)
             outs = [x for x, f in ((a1, f1), (a2, f2)) if f]
-            return (all(outs) if outs else a0), bool(outs)
+            return ((any(outs) if self.may else all(outs)) if outs else a0), bool(outs)
         if isinstance(st, (ast.While, ast.For, ast.AsyncFor)):
             a0 = a
             for h in _header_exprs(st):
                 a0 = self.simple(ast.Expr(value=h, lineno=st.lineno), a0)
+            if self.may:
+                # may-analysis: the fact at the loop head is the join over the entry and the back edge; walk once to learn
+                # the back-edge fact, and again from the joined fact when that adds something
+                n0, e0 = len(self.found), len(self.exempted)
+                ae, _f = self.block(st.body, a0)
+                if ae and not a0:
+                    del self.found[n0:], self.exempted[e0:]
+                    self.block(st.body, True)
+                    a0 = True
+                if st.orelse:
+                    self.block(st.orelse, a0)
+                return (a0 or ae), True
             self.block(st.body, a0)  # the header (test / iterable) is evaluated before the first iteration; back edges only carry stronger facts
             if st.orelse:
                 self.block(st.orelse, a)
@@ -149,14 +166,17 @@ class Walk:
             if fb and st.orelse:
                 ab, fb = self.block(st.orelse, ab)
             outs = [ab] if fb else []
+            a_h = a
+            if self.may and any(self._has(x, self.after) for b in st.body for x in ast.walk(b) if isinstance(x, ast.stmt)):
+                a_h = True  # may-analysis: an exception can leave the body after Y was executed
             for h in st.handlers:
-                ah, fh = self.block(h.body, a)
+                ah, fh = self.block(h.body, a_h)
                 if fh:
                     outs.append(ah)
-            a_after = all(outs) if outs else a
+            a_after = (any(outs) if self.may else all(outs)) if outs else a
             ft = bool(outs)
             if st.finalbody:
-                af, ff = self.block(st.finalbody, a)
+                af, ff = self.block(st.finalbody, a_h if self.may else a)
                 if not ff:
                     ft = False
             return a_after, ft
@@ -213,7 +233,8 @@ def build(qual, reg):
     after = _parse(decl["after"])
     sites = [_parse(s) for s in decl["sites"]]
     exempt = {_parse(k): [ast.unparse(ast.parse(t, mode="eval").body) for t in v] for k, v in (decl.get("exempt") or {}).items()}
-    w = Walk(after, sites, exempt)
+    may = decl.get("mode", "only_after") == "none_after"
+    w = Walk(after, sites, exempt, may=may)
     w.block(node.body, False)
     for spec, line, t in w.exempted:
         r.assumptions.add("dominance: the %s of %s at line %d, guarded by `if %s:`, is exempt by declaration (%s)" % ("write" if spec[0] == "writes" else "call", spec[1], line, t, decl.get("exempt_note", "")))
@@ -222,9 +243,14 @@ def build(qual, reg):
     for spec, line, a in sorted(w.found, key=lambda t: (t[0], t[1])):
         k = counts.get(spec, 0)
         counts[spec] = k + 1
-        oname = "%s:after(%s).%s:%s@%d" % (fq, after[1], spec[0], spec[1], k)
-        note = "line %d: %s of %s %s %s:%s returned normally on every path" % (line, "write" if spec[0] == "writes" else "call", spec[1], "only after" if a else "NOT only after", after[0], after[1])
-        ob = Obligation(oname, "dominance", [], z3.BoolVal(bool(a)), site=line, note=note)
+        if may:
+            oname = "%s:none-after(%s).%s:%s@%d" % (fq, after[1], spec[0], spec[1], k)
+            note = "line %d: %s of %s %s be executed after %s:%s" % (line, "write" if spec[0] == "writes" else "call", spec[1], "can" if a else "can never", after[0], after[1])
+            ob = Obligation(oname, "dominance", [], z3.BoolVal(not a), site=line, note=note)
+        else:
+            oname = "%s:after(%s).%s:%s@%d" % (fq, after[1], spec[0], spec[1], k)
+            note = "line %d: %s of %s %s %s:%s returned normally on every path" % (line, "write" if spec[0] == "writes" else "call", spec[1], "only after" if a else "NOT only after", after[0], after[1])
+            ob = Obligation(oname, "dominance", [], z3.BoolVal(bool(a)), site=line, note=note)
         r.obligations.append(ob)
     for s, n in (decl.get("expect") or {}).items():
         got = counts.get(_parse(s), 0)
